@@ -26,7 +26,7 @@ func TestVerifC09(t *testing.T) {
 		return
 	}
 	defer s.Close()
-	nWorlds := c.Share(c.Pick(200, 4000))
+	nWorlds := c.Share(c.Pick(600, 4000))
 	for n := 0; n < nWorlds; n++ {
 		if c.Past(n) || c.Stop() {
 			break
